@@ -682,9 +682,50 @@ Definition do_defined (s : xst) : xr unit :=
            end
   end.
 
+(* self.expand(tokens, None, True) for an argument, given the function [runf] that runs the
+   loop of the nested frame until EndofParse: returns the expansion and the state *)
+Definition call_with (runf : xst -> res xst) (arg : list tok) (s0 : xst) : res (list tok * xst) :=
+  if Nat.leb max_level (List.length (x_stack s0)) then Err "Overflow"
+  else match arg with
+       | [] => Ok ([], s0)
+       | _ =>
+         match runf (mkX (mkH (map Some arg) 0 true :: x_stack s0) (base_name :: x_noexp s0)) with
+         | Ok s1 =>
+             match x_stack s1 with
+             | top :: below => Ok (somes (h_toks top), mkX below (tl (x_noexp s1)))
+             | [] => Err "IndexError"
+             end
+         | Err "Overflow" =>
+             (* except MacroExpandOverflow: self.__init__(platform); return [0] *)
+             Ok ([mkTok KNum false "0" true], mkX [] [])
+         | Err e => Err e
+         end
+       end.
+
+(* pre-expansion of the arguments, in order *)
+Fixpoint pre_with (runf : xst -> res xst) (m : macro) (i : nat) (al : list (list tok)) (st : xst)
+  : res (list iarg * xst) :=
+  match al with
+  | [] => Ok ([], st)
+  | a :: ar =>
+      if match nth_error (m_need m) i with Some b => b | None => true end then
+        match call_with runf a st with
+        | Err e => Err e
+        | Ok (ex, st1) =>
+            match pre_with runf m (S i) ar st1 with
+            | Ok (ias, st2) => Ok ((a, Some ex) :: ias, st2)
+            | Err e => Err e
+            end
+        end
+      else
+        match pre_with runf m (S i) ar st with
+        | Ok (ias, st2) => Ok ((a, None) :: ias, st2)
+        | Err e => Err e
+        end
+  end.
+
 (* The body of expand(): [run fuel s] iterates the `while True` until
-   EndofParse and returns the state at that moment.  [call] is the recursive
-   self.expand(arg, ident=None, pre_expand=True). *)
+   EndofParse and returns the state at that moment. *)
 Fixpoint run (fuel : nat) (s : xst) : res xst :=
   match fuel with
   | O => Err "OutOfFuel"
@@ -695,24 +736,6 @@ Fixpoint run (fuel : nat) (s : xst) : res xst :=
       | XEnd s' => Ok s'
       | XErr e => Err e
       end in
-    (* self.expand(tokens, None, True): returns the expansion and the state *)
-    let call (arg : list tok) (s0 : xst) : res (list tok * xst) :=
-      if Nat.leb max_level (List.length (x_stack s0)) then Err "Overflow"
-      else match arg with
-           | [] => Ok ([], s0)
-           | _ =>
-             match run f (mkX (mkH (map Some arg) 0 true :: x_stack s0) (base_name :: x_noexp s0)) with
-             | Ok s1 =>
-                 match x_stack s1 with
-                 | top :: below => Ok (somes (h_toks top), mkX below (tl (x_noexp s1)))
-                 | [] => Err "IndexError"
-                 end
-             | Err "Overflow" =>
-                 (* except MacroExpandOverflow: self.__init__(platform); return [0] *)
-                 Ok ([mkTok KNum false "0" true], mkX [] [])
-             | Err e => Err e
-             end
-           end in
     match peek_tok_pop s with
     | XEnd s1 => Ok s1
     | XErr e => Err e
@@ -744,27 +767,7 @@ Fixpoint run (fuel : nat) (s : xst) : res xst :=
                       | XEnd s4 => Ok s4
                       | XErr e => Err e
                       | XVal args s4 =>
-                        (* pre-expansion of the arguments, in order *)
-                        let fix pre (i : nat) (al : list (list tok)) (st : xst) : res (list iarg * xst) :=
-                          match al with
-                          | [] => Ok ([], st)
-                          | a :: ar =>
-                              if match nth_error (m_need m) i with Some b => b | None => true end then
-                                match call a st with
-                                | Err e => Err e
-                                | Ok (ex, st1) =>
-                                    match pre (S i) ar st1 with
-                                    | Ok (ias, st2) => Ok ((a, Some ex) :: ias, st2)
-                                    | Err e => Err e
-                                    end
-                                end
-                              else
-                                match pre (S i) ar st with
-                                | Ok (ias, st2) => Ok ((a, None) :: ias, st2)
-                                | Err e => Err e
-                                end
-                          end in
-                        match pre 0 args s4 with
+                        match pre_with (run f) m 0 args s4 with
                         | Err e => Err e
                         | Ok (ias, s5) =>
                           match replace_fun lead cat_fix str_white resub_fix va_fix m ias with
